@@ -117,7 +117,7 @@ def parseRoot (f : String) : Option (Option Link) :=
 
 def c10Line (g : Option Graph) (pointers : List (Str × List Str)) (isAbstract : Str → Bool) (req impl : List String) : String :=
   match g, req, impl with
-  | some g, [_, entry, _, _], varsW :: respW :: rootF :: norm :: rest =>
+  | some g, [_, _, entry, _, _], varsW :: respW :: rootF :: norm :: rest =>
     (match g.entry? (strOfString entry), parseJ varsW, parseJ respW, parseRoot rootF with
      | some e, some vars, some resp, some root =>
        let m := c10Model g pointers e vars resp root
